@@ -25,11 +25,11 @@ def chunkVal (c : Bits) : Nat := c.foldl (fun a b => 2 * a + (if b then 1 else 0
 
 /-- `decode_from_bin`: chunks of 8 (`partition_all`), the last one possibly shorter -/
 def ofBits (bs : Bits) : Bytes :=
-  match h : bs with
+  match _h : bs with
   | [] => []
   | _ :: _ => UInt8.ofNat (chunkVal (bs.take 8)) :: ofBits (bs.drop 8)
 termination_by bs.length
-decreasing_by simp [h]; omega
+decreasing_by simp [_h]; omega
 
 def twoBits (n : Nat) : Bits := [n / 2 % 2 = 1, n % 2 = 1]
 
